@@ -109,7 +109,18 @@ struct dyn {
   template <template <class...> class V, template <class...> class T> using value_types = V<T<int>>;
   template <template <class...> class V> using error_types = V<std::exception_ptr>;
   static constexpr bool sends_done = true;
-  struct op { std::unique_ptr<op_base> o; void start() noexcept { o->start(); } };
+  // the canary makes a second destruction of the same operation state visible (a destroyed unique_ptr is null, so
+  // destroying it again would otherwise be silent)
+  struct op {
+    std::unique_ptr<op_base> o; unsigned canary = 0x600D600Du;
+    explicit op(std::unique_ptr<op_base> p) noexcept : o(std::move(p)) {}
+    op(op&& x) noexcept : o(std::move(x.o)) {}
+    ~op() {
+      if (canary != 0x600D600Du) vmcrt::fail("C02", "op-destroyed-twice", "an operation state was destroyed twice (or never constructed)");
+      canary = 0xDEADDEADu;
+    }
+    void start() noexcept { o->start(); }
+  };
   // adapts whatever receiver a real adaptor gives us back to rcv_base, reading the queries it answers
   template <class R, bool HasValue = true>
   struct holder final : rcv_base, op_base {
@@ -202,7 +213,7 @@ struct LeafInfo {
   int starts = 0, completions = 0;
   bool stop_seen = false, stop_at_start = false;
   Seen seen;
-  int ops_alive = 0, ops_made = 0;
+  int ops_alive = 0, ops_made = 0, connects = 0;
   int order_started = -1;
   int start_ctx = -1;           // context tag of whoever called start() (first start)
 };
@@ -217,6 +228,7 @@ struct Ctx {
   int sched_ops_alive = 0;
   std::vector<Seen> sched_seen; // what each schedule() operation observed
   std::function<void(LeafInfo&)> configure;   // chooses outcome/mode on first start
+  int throw_connect_leaf = -1, throw_connect_nth = 0;   // fault: the nth connect() of this leaf throws tagged_error{950+id}
   std::string trace;
   LeafInfo& leaf(int id) { if ((int)leaves.size() <= id) leaves.resize(id + 1); leaves[id].id = id; return leaves[id]; }
 };
@@ -275,7 +287,12 @@ struct leaf_node final : node {
       cb.emplace(tok, Cb{this});   // may complete us right here (Reactive) if stop is requested concurrently
     }
   };
-  std::unique_ptr<op_base> connect(rcv_base& r) const override { return std::make_unique<opimpl>(id, r); }
+  std::unique_ptr<op_base> connect(rcv_base& r) const override {
+    auto& L = g->leaf(id);
+    int nth = L.connects++;
+    if (g->throw_connect_leaf == id && nth == g->throw_connect_nth) { g->trace += "x" + std::to_string(id) + " "; throw kit::tagged_error{950 + id}; }
+    return std::make_unique<opimpl>(id, r);
+  }
 };
 inline dyn leaf(int id) { return dyn{std::make_shared<leaf_node>(id)}; }
 
